@@ -25,7 +25,15 @@ def main():
     if a.replay:
         from mxv import replay
         sys.exit(replay.run(a.prop, a.replay))
-    ck = core.Check(a.prop, a.tier if a.tier in ("quick", "thorough") else "quick", seed)
+    level = "model_checking"
+    try:        # the level claimed in MANIFEST.json is the level the evidence is recorded for
+        import json as _json
+        for c in _json.load(open(os.path.join(core.ROOT, "MANIFEST.json"))).get("checks", []):
+            if c.get("property_id") == a.prop:
+                level = (c.get("level_claimed") or {}).get("category", level)
+    except Exception:
+        pass
+    ck = core.Check(a.prop, a.tier if a.tier in ("quick", "thorough") else "quick", seed, level=level)
     try:
         mod = importlib.import_module("mxv.checks." + a.prop.lower())
         mod.run(ck)
